@@ -133,12 +133,18 @@ class _Multi(object):
         return max(m.max_readers for m in self.mons)
 
 
+_NAMES = {"i": 0}
+
+
 def one_run(r, w, rounds, decider, hooks=None, trace=False, second_lock=None, mixed=None):
     """One schedule of r readers and w writers.  Returns (sched, mon, lock).
     second_lock = (r2, w2): that many readers / writers work on a SECOND, unrelated RWLock object in the same schedule."""
     _install_shim()
     S.VLock.counter = 0
     mon = Mon()
+    _NAMES["i"] += 1
+    # every third schedule: all worker threads carry the same Thread.name (a pool of "worker" threads) - a name is not an identity
+    S.Sched.real_thread_name = "worker" if _NAMES["i"] % 3 == 0 else None
     s = S.Sched(decider, max_steps=20000)
     if trace:
         s.trace = []
@@ -203,6 +209,7 @@ def one_run(r, w, rounds, decider, hooks=None, trace=False, second_lock=None, mi
     if hooks is not None:
         hooks.sched = s
     ok = s.run(timeout=10.0)
+    S.Sched.real_thread_name = None
     if hooks is not None:
         hooks.sched = None
     S.VLock.sched = None
